@@ -57,6 +57,9 @@ pub struct Custom {
     /// (violation, replay payload, count)
     pub found: Vec<(Violation, Value, u64)>,
     pub wall_s: f64,
+    /// A cross-check that decides nothing (e.g. free-running repetitions): reported separately, its
+    /// counts are not added to the totals and it does not affect the `exhaustive` flag.
+    pub non_deciding: bool,
 }
 
 pub struct Ctx {
@@ -394,11 +397,13 @@ impl Ctx {
                 .map(|c| format!(" CAPPED({c})"))
                 .unwrap_or_default()
         );
-        self.evaluations += c.evaluations;
-        self.distinct += c.distinct;
-        self.states += c.states;
-        self.transitions += c.transitions;
-        if !c.exhaustive || c.capped.is_some() {
+        if !c.non_deciding {
+            self.evaluations += c.evaluations;
+            self.distinct += c.distinct;
+            self.states += c.states;
+            self.transitions += c.transitions;
+        }
+        if !c.non_deciding && (!c.exhaustive || c.capped.is_some()) {
             self.exhaustive = false;
             if let Some(cap) = &c.capped {
                 self.caps.push(format!("{}: {cap}", c.name));
@@ -416,6 +421,7 @@ impl Ctx {
             "states": c.states,
             "transitions": c.transitions,
             "exhaustive": c.exhaustive,
+            "non_deciding_cross_check": c.non_deciding,
             "capped": c.capped,
             "violation_classes": c.found.len(),
             "wall_s": c.wall_s,
